@@ -138,7 +138,7 @@ def run(tier, seed):
                 origin.append((s, o))
         okc, failing, clog = run_coq_cases("C17", IMPORTS, "str * str",
                                            "(fun c => match convert ka_table ka_doubling ka_sokuon_spelling (fst c) with Some r => str_eqb r (snd c) | None => false end)",
-                                           cc, shard=max(300, len(cc) // 16 + 1))
+                                           cc, shard=min(1500, max(300, len(cc) // 16 + 1)))
         n_model = len(cc)
         if not okc:
             res.tie_broken("correspondence: evaluating the kana-alpha model failed", clog)
